@@ -42,7 +42,8 @@ def layout_rules(ctx):
     # rows / columns
     ge = repo.cls(GE)
     for dof_n in (1, 2):
-        obj = XObj(ge, dict(nPe=nPe, Ne=Ne, connect=conn))
+        # the stored connectivity under its public and its private name (a fast path may read either)
+        obj = XObj(ge, {"nPe": nPe, "Ne": Ne, "connect": conn, ge.mangle("__connect"): conn})
         n = nPe * dof_n
         a = XArray.from_nested(I.call_function(f, [conn, dof_n]))
         for meth, pick in (("Get_rows_e", 0), ("Get_columns_e", 1)):
@@ -335,6 +336,9 @@ def slot_rules(ctx):
 
 
 def run(ctx):
+    from ..shared import copy_out_rule as _copy_out_rule
+
+    _copy_out_rule(ctx, "R3.7", ["Get_K_C_M_F"], "EasyFEA.Simulations._simu._Simu")
     ctx.level = "other"
     ctx.explanation = (
         "Index arithmetic of the assembly (dof = node*dof_n+comp, rows/cols of flattened element matrices, block layout of N) is decided by interpreting "
@@ -428,19 +432,26 @@ def dofs_nodes_rule(ctx, r1=None):
     if r1 is None:
         r1 = ctx.rule("R3.1", "index layout: dof(node, unknown) = node*dim + index(unknown) in the caller's unknown order", min_instances=1)
     fb = repo.method(BC, "Get_dofs_nodes")
-    I = Interp(repo)
-    r1.instance(fn=fb.qualname)
-    how = "symbolic node numbers"
-    nodes = XArray((2,), [Poly.var("n0"), Poly.var("n1")])
-    try:
-        res = XArray.from_nested(I.call_function(fb, [["x", "y", "z"], nodes, ["z", "x"]]))
-    except Uninterpretable:
-        how = "concrete node numbers (7, 2): the function orders its data by value"
-        nodes = XArray((2,), [Q(7), Q(2)])
-        res = XArray.from_nested(I.call_function(fb, [["x", "y", "z"], nodes, ["z", "x"]]))
-    res = res.ravel() if res.ndim > 1 else res
-    want = [nodes[0] * 3 + 2, nodes[0] * 3 + 0, nodes[1] * 3 + 2, nodes[1] * 3 + 0]
-    if res.size == 4 and all(is_zero(res.data[k] - want[k]) for k in range(4)):
-        r1.ok(f"BoundaryCondition.Get_dofs_nodes: node*dim + index(unknown), node-major order, unknowns in the caller's order ({how})")
-    else:
-        r1.fail(fb.qualname, "layout", fb.file, fb.lineno, "Get_dofs_nodes", f"dofs for nodes ({nodes[0]!r}, {nodes[1]!r}), unknowns (z,x) among (x,y,z) are {res.tolist() if isinstance(res, XArray) else res!r}, expected {want!r}: values given per unknown are paired with the wrong dof whenever the unknowns are not listed in canonical order")
+    import itertools
+
+    # every ordered selection of the available unknowns, in 2-D and 3-D (the finite domain of the `unknowns` argument)
+    for avail in (["x", "y"], ["x", "y", "z"], ["x", "y", "rz"]):
+        dim = len(avail)
+        for k in range(1, dim + 1):
+            for unknowns in itertools.permutations(avail, k):
+                I = Interp(repo)
+                r1.instance(fn=fb.qualname)
+                how = "symbolic node numbers"
+                nodes = XArray((2,), [Poly.var("n0"), Poly.var("n1")])
+                try:
+                    res = XArray.from_nested(I.call_function(fb, [list(avail), nodes, list(unknowns)]))
+                except Uninterpretable:
+                    how = "concrete node numbers (7, 2): the function orders its data by value"
+                    nodes = XArray((2,), [Q(7), Q(2)])
+                    res = XArray.from_nested(I.call_function(fb, [list(avail), nodes, list(unknowns)]))
+                res = res.ravel() if res.ndim > 1 else res
+                want = [nodes[m] * dim + avail.index(u) for m in range(2) for u in unknowns]
+                if res.size == len(want) and all(is_zero(res.data[q] - want[q]) for q in range(len(want))):
+                    r1.ok(f"BoundaryCondition.Get_dofs_nodes({avail}, unknowns={list(unknowns)}): node*dim + index(unknown), node-major, caller's order ({how})")
+                else:
+                    r1.fail(fb.qualname, f"layout:{','.join(avail)}:{','.join(unknowns)}", fb.file, fb.lineno, "Get_dofs_nodes", f"dofs for nodes ({nodes[0]!r}, {nodes[1]!r}), unknowns {list(unknowns)} among {avail} are {res.tolist() if isinstance(res, XArray) else res!r}, expected {want!r}: values given per unknown are paired with the wrong dof whenever the unknowns are not listed in canonical order")
